@@ -4,7 +4,11 @@ Three parts.
 
 * translation (`pregen`): lean/AnnetModel/Gen/Effects.lean is regenerated from the Python ASTs of $ANNET_REPO on every
   run: the write sets of every function reachable from the %logic / %diff_logic names of the shipped rule files and
-  of the common logics, and the three copy flags read off make_diff / make_patch / _select_match.
+  of the common logics, the three copy flags read off make_diff / make_patch / _select_match, and the inventory of
+  process-lifetime state (module- and class-level mutable containers, memoising decorators, mutable default arguments,
+  `global` statements) of the modules a worker runs — `C20_process_state_audited` states that it is the audited list of
+  Spec/ProcessState.lean, so a new cache or shared container breaks a proof obligation even when no sampled history
+  shows a difference.
 * T (correspondence): the compiled Lean effect model (Model/Effects.lean through Glue/C20.lean, flags and table from
   Gen/Effects.lean) against the real functions:
     kind=heap    api._diff_and_patch run several times in one process on one compiled rulebook whose rules carry
@@ -514,6 +518,71 @@ def _lstr(s):
     return json.dumps(s, ensure_ascii=True)
 
 
+# =====================================================================================================================
+# process-lifetime state: what can carry information from one device to the next inside a worker
+# =====================================================================================================================
+_MUT_CALLS = {"dict", "list", "set", "odict", "OrderedDict", "defaultdict", "Counter", "deque"}
+STATE_SCOPE = ("annet/annlib", "annet/rulebook", "annet/vendors", "annet/implicit.py", "annet/patching.py",
+               "annet/parallel.py", "annet/lib.py", "annet/diff.py", "annet/gen.py", "annet/api", "annet/generators",
+               "annet/deploy.py", "annet/tabparser.py", "annet/connectors.py", "annet/hardware.py")
+
+
+def _is_mutable_expr(v):
+    if isinstance(v, (ast.Dict, ast.List, ast.Set, ast.ListComp, ast.DictComp, ast.SetComp)):
+        return True
+    if isinstance(v, ast.Call):
+        f = v.func
+        n = f.id if isinstance(f, ast.Name) else f.attr if isinstance(f, ast.Attribute) else ""
+        return n in _MUT_CALLS
+    return False
+
+
+def process_state(repo):
+    """every place of the scoped modules where a value can outlive a call: module-level and class-level mutable
+    containers, memoising decorators, mutable default arguments -> sorted list of 'file:what' strings"""
+    items = set()
+    for scope in STATE_SCOPE:
+        base = os.path.join(repo, scope)
+        paths = [base] if base.endswith(".py") else [os.path.join(dp, f) for dp, _dn, fn in os.walk(base) for f in fn if f.endswith(".py")]
+        for path in paths:
+            if not os.path.isfile(path):
+                continue
+            rel = os.path.relpath(path, repo)
+            try:
+                tree = ast.parse(open(path, encoding="utf-8").read())
+            except SyntaxError:
+                items.add("%s:<does not parse>" % rel)
+                continue
+
+            def scan(body, pre):
+                for n in body:
+                    if isinstance(n, (ast.Assign, ast.AnnAssign)):
+                        tg = n.targets if isinstance(n, ast.Assign) else [n.target]
+                        if n.value is not None and _is_mutable_expr(n.value):
+                            for t in tg:
+                                if isinstance(t, ast.Name):
+                                    items.add("%s:%s%s = <mutable>" % (rel, pre, t.id))
+                    elif isinstance(n, ast.ClassDef):
+                        scan(n.body, pre + n.name + ".")
+                    elif isinstance(n, (ast.If, ast.Try)):
+                        scan(n.body, pre)
+            scan(tree.body, "")
+            for n in ast.walk(tree):
+                if isinstance(n, (ast.FunctionDef, ast.AsyncFunctionDef)):
+                    for d in n.decorator_list:
+                        txt = ast.unparse(d)
+                        if "cache" in txt:
+                            items.add("%s:%s @%s" % (rel, n.name, txt.split("(")[0]))
+                    for d in list(n.args.defaults) + [x for x in n.args.kw_defaults if x is not None]:
+                        if _is_mutable_expr(d):
+                            items.add("%s:%s(<mutable default>)" % (rel, n.name))
+                    for sub in ast.walk(n):
+                        if isinstance(sub, ast.Global):
+                            for g in sub.names:
+                                items.add("%s:%s global %s" % (rel, n.name, g))
+    return sorted(items)
+
+
 def render_gen(flags, table):
     b = lambda x: "true" if x else "false"  # noqa: E731
     lines = ["-- generated by harness/props/c20.py (pregen) from the Python ASTs of the annet tree; do not edit",
@@ -532,6 +601,11 @@ def render_gen(flags, table):
         wl = ", ".join("⟨.%s, %s, %s, %s⟩" % (r, _lstr(f), _lstr(h), b(v)) for r, f, h, v in ws)
         ents.append("  ⟨%s, %s, %s, [%s]⟩" % (_lstr(name), ".logic" if kind == "logic" else ".diffLogic", b(resolved), wl))
     lines.append(",\n".join(ents))
+    lines += ["]", "",
+              "/-- every place of the scoped annet modules where a value can outlive a call (module- and class-level mutable",
+              "containers, memoising decorators, mutable default arguments, `global` statements) -/",
+              "def processState : List String := ["]
+    lines.append(",\n".join("  " + _lstr(x) for x in process_state(REPO)))
     lines += ["]", "", "end Annet.Gen.Effects", ""]
     return "\n".join(lines)
 
@@ -546,6 +620,21 @@ def table():
     return _TABLE
 
 
+def _state_note():
+    """how the regenerated process-state inventory differs from the audited list of Spec/ProcessState.lean (what
+    C20_process_state_audited states), for the replay of an unproved run"""
+    try:
+        spec = open(os.path.join(LEAN, "AnnetModel", "Spec", "ProcessState.lean"), encoding="utf-8").read()
+        audited = set(re.findall(r'^  "((?:[^"\\]|\\.)*)",?$', spec, re.M))
+        now = set(process_state(REPO))
+        if now != audited:
+            return "; process state differs from the audited list (C20_process_state_audited): new %s, gone %s" % (
+                sorted(now - audited), sorted(audited - now))
+    except Exception as e:  # noqa
+        return "; process-state note failed: %r" % (e,)
+    return ""
+
+
 def pregen():
     flags = copy_flags(REPO)
     text = render_gen(flags, table())
@@ -553,8 +642,8 @@ def pregen():
     if not os.path.exists(GEN_FILE) or open(GEN_FILE, encoding="utf-8").read() != text:
         with open(GEN_FILE, "w", encoding="utf-8") as f:
             f.write(text)
-        return "Gen/Effects.lean rewritten: flags=%s, %d entries" % (flags, len(table()))
-    return "Gen/Effects.lean unchanged"
+        return "Gen/Effects.lean rewritten: flags=%s, %d entries%s" % (flags, len(table()), _state_note())
+    return "Gen/Effects.lean unchanged" + _state_note()
 
 
 # =====================================================================================================================
